@@ -174,7 +174,7 @@ where
     B: BaseFut,
     H: ElementHasher<BaseField = B> + Sync + Send,
 {
-    let mut gp = params_for(rng, case, 8, false);
+    let mut gp = params_for(rng, case, 8, cfg!(debug_assertions));
     let shape = case % 6;
     match shape {
         0 => gp.max_width = 255,
